@@ -416,3 +416,40 @@ _EIGHTH_ROUND = {
 }
 for _pid, _extra in _EIGHTH_ROUND.items():
     CLAIMS[_pid]['text'] = CLAIMS[_pid]['text'] + ' Eighth round: ' + _extra
+
+
+# rules added in the ninth round
+_NINTH_ROUND = {
+    'C04': 'Task.__close__ leaves the payload to the runner that wraps it; the interrupt '
+           'state of a scope and its closing steps are touched by methods of the scope '
+           'classes only.',
+    'C05': 'Awaiting a task suspends also when the task is done already (the abort queued by '
+           'a failure reaches the awaiter first).',
+    'C07': 'A connective absorbs exactly the wake-ups of its own subscriptions (subscription '
+           'rule of C08, handler rule of C03): the signal of an until-block passes a wait on '
+           '`a & b` inside the block.',
+    'C08': 'Comparisons of resource levels compare with exactly what was given (nothing of '
+           'the current levels is frozen into the operand).',
+    'C10': 'A receiver waits for the notification while it holds the read mutex; every queue '
+           'has state of its own made by its constructor; put()/close() are over after one '
+           'postponement.',
+    'C11': 'Every channel has state of its own made by its constructor; put()/close() are '
+           'over after one postponement.',
+    'C12': 'claim() passes its amounts through the checks of borrow(); the share of a borrow '
+           'block is filled (awaited, not dispatched) before __aenter__ returns; comparisons '
+           'of levels compare with exactly what was given.',
+    'C15': 'StateHandler.assign restores the previous loop on every way out of the managed '
+           'block, the block raising any class a handler names (forced close, '
+           'KeyboardInterrupt, SystemExit included).',
+    'C16': 'The interrupt state of the scope of first()/collect() is touched by the scope '
+           'classes only.',
+    'C18': 'A failed event is marked as handled only at the hand-over of its exception: no '
+           'suspension between `defused = True` and raise/throw/fail.',
+}
+for _pid, _extra in _NINTH_ROUND.items():
+    CLAIMS[_pid]['text'] = CLAIMS[_pid]['text'] + ' Ninth round: ' + _extra
+_KERNEL_NOTE = (' (The kernel core also decides the wait-queue rules of C01: dated '
+                'activations leave the queue smallest date first, each with its own bucket.)')
+for _pid in ('C02', 'C08', 'C09', 'C10', 'C11', 'C12', 'C13', 'C14', 'C15', 'C16', 'C18', 'C19',
+             'C20'):
+    CLAIMS[_pid]['text'] = CLAIMS[_pid]['text'] + _KERNEL_NOTE
